@@ -940,7 +940,56 @@ func formKind(form string) string {
 	return "relative"
 }
 
+// plainReader hides every optional interface of a reader (io.WriterTo in
+// particular, which io.Copy would prefer over the destination's ReadFrom).
+type plainReader struct{ r io.Reader }
+
+func (p plainReader) Read(b []byte) (int, error) { return p.r.Read(b) }
+
+// lastWithEOF returns the final bytes together with io.EOF in one Read, as
+// the io.Reader contract allows (HTTP bodies of known length do).
+type lastWithEOF struct {
+	data []byte
+	max  int
+}
+
+func (l *lastWithEOF) Read(b []byte) (int, error) {
+	if len(l.data) == 0 {
+		return 0, io.EOF
+	}
+	n := len(b)
+	if n > l.max {
+		n = l.max
+	}
+	if n > len(l.data) {
+		n = len(l.data)
+	}
+	copy(b, l.data[:n])
+	l.data = l.data[n:]
+	if len(l.data) == 0 {
+		return n, io.EOF
+	}
+	return n, nil
+}
+
+// writeChunks hands data to the writer the ways a caller can: Write calls of
+// random sizes, or io.Copy from a source (which uses the writer's ReadFrom if
+// it has one) that is plain, delivers one byte per Read, or delivers its last
+// bytes together with io.EOF.
 func writeChunks(r *rand.Rand, w io.Writer, data []byte) {
+	switch r.Intn(6) {
+	case 0:
+		io.Copy(w, plainReader{bytes.NewReader(data)})
+		return
+	case 1:
+		io.Copy(w, &lastWithEOF{data: data, max: 1 + r.Intn(70000)})
+		return
+	case 2:
+		if len(data) < 5000 {
+			io.Copy(w, &lastWithEOF{data: data, max: 1})
+			return
+		}
+	}
 	for len(data) > 0 {
 		n := 1 + r.Intn(70000)
 		if r.Intn(3) == 0 {
